@@ -630,6 +630,9 @@ func do_YIELD_FROM(vm *Vm, arg int32) error {
 		if !py.IsException(py.StopIteration, err) {
 			return err
 		}
+		// the delegate is finished: the value of the yield
+		// from expression is the value its StopIteration carries
+		vm.SET_TOP(py.StopIterationValue(err))
 		return nil
 	}
 	// x remains on stack, retval is value to be yielded
